@@ -1,4 +1,4 @@
-\* liveness under fairness of workers, callers inside a critical section and the daemon
-CONSTANTS CIDS = {"c1"} MaxOps = 3 K0 = 1 Q0 = 1 Level0 = "tracker" Strict = TRUE Lag = FALSE
+\* liveness under fairness of workers, callers inside a critical section and the daemon (quick)
+CONSTANTS CIDS = {"c1"} MaxOps = 2 K0 = 1 Q0 = 1 Level0 = "tracker" Strict = TRUE Lag = FALSE
 SPECIFICATION LiveSpec
 PROPERTIES EnqueuedIsServed WorkersSettle
